@@ -59,6 +59,23 @@ def main():
         cases.append((f"n={n} complex operator with a real start vector", np.arange(1.0, n + 1) * rng.choice([-1, 1], n), "realstart", None))
         # real symmetric operator, COMPLEX start vector (the basis must keep the imaginary part)
         cases.append((f"n={n} real operator with a complex start vector", np.arange(1.0, n + 1) * rng.choice([-1, 1], n), "cstart", None))
+    # a lazy sum whose FIRST term returns its operand (I + K): an in-place accumulation in Sum._matmat would write through the basis
+    for n in (6, 12):
+        Kd = rng.standard_normal((n, n))
+        Kd = (Kd + Kd.T) / 2
+        v = rng.standard_normal(n)
+        opS = cola.SelfAdjoint(cola.ops.Identity((n, n), np.float64) + Dense(Kd))
+        inp = f"lanczos(SelfAdjoint(Identity({n}) + Dense(symmetric)), random start vector, max_iters={n}, tol=1e-10), seed 14"
+        try:
+            Q, T, info = L.lanczos(opS, v.copy(), max_iters=n, tol=1e-10)
+            Qd, Td = np.asarray(Q.to_dense()), np.asarray(T.to_dense())
+        except Exception as e:
+            found(clause="no exception", input=inp, observed=f"{type(e).__name__}: {str(e)[:200]}", expected="a decomposition")
+        k = Qd.shape[1]
+        Md = np.eye(n) + Kd
+        if k < n or not np.all(np.isfinite(Qd)) or np.abs(Qd.T @ Qd - np.eye(k)).max() > 1e-7 or np.abs(Td - Qd.T @ Md @ Qd).max() > 1e-7 * max(1, np.abs(Md).max()):
+            found(clause="Q has orthonormal columns and T = Q^H A Q for an operator given as a lazy sum I + K", input=inp,
+                  observed=f"{k} columns, |Q^T Q - I| = {np.abs(np.nan_to_num(Qd.T @ Qd) - np.eye(k)).max():.2e}", expected=f"{n} orthonormal columns")
     # operators whose product returns its operand (Identity._matmat): the candidate vector aliases a column of the basis
     for n in (1, 6, 12):
         v = rng.standard_normal(n)
